@@ -18,7 +18,8 @@ EXPLANATION = (
     "handle last.  R5: the result of an allocation never flows into an assertion, except the upstream-acknowledged "
     "lazy-stack sites which exist only when lazy stack allocation is configured in (checked in that variant).  "
     "'Pre-existing objects still work' and 'the call succeeds when retried' are behavioural and not decided; "
-    "resources stored into arrays inside loops are out of scope.")
+    "resources stored into arrays inside loops are out of scope."
+    ' R6 (typestate over every function that calls a step which may fail for lack of memory): at an error return that follows such a failure no field of a handle-backed descriptor reached from a parameter or global is left modified, unless a later store on the path restores it -- state is committed after the last fallible step.  R7 (= C16.R1): the lock sentinel of the key-table slot is put back when the table cannot be allocated.')
 DECLINED = ["'pre-existing objects ... still work' and 'the same call succeeds when retried' as behaviour",
             "resources stored in arrays inside loops", "failures of user callbacks other than create_unit"]
 ASSUMPTIONS = ["the allocator table of abtverif/errflow.py lists the repository's allocation entry points"]
@@ -26,6 +27,7 @@ RULES_DOC = dict(common.SHARED_DOC)
 RULES_DOC["R6"] = c18_commit.DOC
 RULES_DOC["R7"] = ("= C16.R1: the key-table slot is published NULL -> LOCKED -> table and is put back to NULL when the "
                    "table cannot be allocated (a failed set leaves no lock sentinel behind)")
+RULES_DOC["R8"] = "a routine that receives an array of pool handles frees, on its own paths, only the pools it created itself: every ABTI_pool_free call in it is governed by the test that the caller's slot was ABT_POOL_NULL"
 RULES_DOC.update({
     "R1": "no dropped error (-Werror=unused-result witness over all units) and no out-parameter read before the result test",
     "R2": "every error return has released or handed over the resources acquired on that path (incl. init_stage ladders)",
@@ -472,6 +474,40 @@ def _reachable_from_api(P, name):
     return True
 
 
+def rule_R8(P, rep):
+    from abtverif import ctrldep
+    n = 0
+    for F in sorted(P.functions.values(), key=lambda f: (f.file, f.line)):
+        arr = [p["n"] for p in F.params if p["t"].replace(" ", "") in ("ABT_pool*", "constABT_pool*")]
+        if not arr or not F.blocks:
+            continue
+        sites = [i for _b, i in F.calls("ABTI_pool_free")]
+        for i in sites:
+            # only releases of a slot that may hold one of the caller's pools: the freed handle is read from a local
+            # array into which a handle of the parameter array was copied on a path that reaches the release
+            base = F.base_var(F.nodes[i]["a"][0]) or F.base_var(F.nodes[F.strip(F.nodes[i]["a"][0])]["a"][0]) \
+                if F.nodes[F.strip(F.nodes[i]["a"][0])].get("k") == "call" else F.base_var(F.nodes[i]["a"][0])
+            mixed = False
+            for _b2, s2, lh, rh in F.stores():
+                if rh is None or F.base_var(lh) != base or base in arr:
+                    continue
+                if any((a + "[") in canon.expr(F, rh, depth=1) for a in arr) and cfg.can_reach(F, s2, i):
+                    mixed = True
+            if base in arr:
+                mixed = True
+            if not mixed:
+                continue
+            conds = ctrldep.conditions(F, i)
+            own = [c for c in conds if any(c[0].startswith(a + "[") and " == " in c[0] and c[0].rsplit(" == ", 1)[1].lstrip("-").isdigit()
+                                            for a in arr)]
+            ok = any(c[1] for c in own) and not any(not c[1] for c in own if not any(d[1] and d[0] == c[0] for d in own))
+            n += 1
+            rep.ob("R8", "%s frees a pool only if the caller's slot was ABT_POOL_NULL (the pool was created here)" % F.name, ok,
+                   "governing tests of the caller's array: %s" % [(c[0], c[1]) for c in own], loc=F.loc(i),
+                   site="%s/pool-free/%d" % (F.name, sites.index(i)))
+    rep.need(n >= 3, "only %d releases of slots that may hold a caller's pool" % n)
+
+
 def run(P, rep, tier):
     rule_R1(P, rep)
     rule_R2(P, rep)
@@ -479,4 +515,5 @@ def run(P, rep, tier):
     rule_R4(P, rep)
     rule_R5(P, rep)
     c18_commit.rule_R6(P, rep)
+    rule_R8(P, rep)
     common.borrow(rep, P, C16.rule_R1_R2, "R7", only=("R1",))
